@@ -24,7 +24,7 @@ VARIANTS = {
     "Result": {"Ok": 0, "Err": 1},
     "FoldWhile": {"Continue": 0, "Done": 1},
 }
-VARIANT_BY_NAME = {"None": 0, "Some": 1, "Ok": 0, "Err": 1, "Continue": 0, "Done": 1}
+VARIANT_BY_NAME = {"None": 0, "Some": 1, "Ok": 0, "Err": 1, "Continue": 0, "Done": 1, "Break": 1}
 INT_WIDTH = {"u8": 8, "u16": 16, "u32": 32, "u64": 64, "usize": 64, "i8": 8, "i16": 16, "i32": 32, "i64": 64, "isize": 64}
 
 
@@ -94,6 +94,7 @@ class SymExec:
         self.consts = consts or {}           # name -> Func of inline constants
         self.fresh = 0
         self.queries = 0
+        SymExec.steps = getattr(SymExec, 'steps', 0)     # symbolic states (block executions) over all runs of the process
 
     # ----- places ---------------------------------------------------------------------------
     def parse_place(self, text):
@@ -278,7 +279,7 @@ class SymExec:
             if is_bv(a):
                 return ~a
             raise Unsupported("Not on %r" % (a,))
-        m = re.match(r"^(?:[A-Za-z_0-9:<>, '&()\[\]]+?)::(Some|None|Ok|Err|Continue|Done)(?:\((.*)\))?$", rv)
+        m = re.match(r"^(?:[A-Za-z_0-9:<>, '&()\[\]]+?)::(Some|None|Ok|Err|Continue|Done|Break)(?:\((.*)\))?$", rv)
         if m:
             args = [self.operand(path, x) for x in split_top(m.group(2))] if m.group(2) else []
             idx = VARIANT_BY_NAME[m.group(1)]
@@ -307,6 +308,7 @@ class SymExec:
             if path.visited[bb] > 1:
                 raise Unsupported("loop through %s in %s: not a loop-free fragment" % (bb, func.name))
             blk = func.blocks[bb]
+            SymExec.steps += 1
             for (text, line) in blk.stmts:
                 self.stmt(path, func, text)
             term, line = blk.term
@@ -464,10 +466,29 @@ class SymExec:
             bad.outcome = ("PANIC", "expect: " + msg, line)
             good = path.fork(okc)
             return [(None, bad)] + ret(pv, good)
+        m = re.match(r"^<(usize|u32|u64) as Ord>::(min|max)$", callee)
+        if m:
+            a, b = vals
+            if not (is_bv(a) and is_bv(b)):
+                raise Unsupported("%s on %r, %r" % (callee, a, b))
+            return ret(z3.If(z3.ULE(a, b), a, b) if m.group(2) == "min" else z3.If(z3.UGE(a, b), a, b))
+        if re.match(r"^<Option<.*> as Try>::branch$", callee):
+            v = vals[0]
+            if not (isinstance(v, tuple) and v and v[0] == "ENUM"):
+                raise Unsupported("Try::branch on %r" % (v,))
+            d = v[1]
+            # Some(x) -> Continue(x) (0), None -> Break(None) (1)
+            if isinstance(d, int):
+                return ret(enum(0, {0: v[2].get(1, [None])}) if d == 1 else enum(1, {1: [none()]}))
+            return ret(enum(z3.If(d == 1, z3.BitVecVal(0, 8), z3.BitVecVal(1, 8)), {0: v[2].get(1, [None]), 1: [none()]}))
+        if re.match(r"^<Option<.*> as FromResidual<Option<Infallible>>>::from_residual$", callee):
+            return ret(none())
         for rx, tag, kind in self.opaque:
             if re.search(rx, callee):
                 args = [self.deref(path, v) for v in vals]
                 path.events.append((tag, args, line))
+                if callable(kind):
+                    return ret(kind(self, path, vals, args))
                 if kind == "bool?":
                     self.fresh += 1
                     return ret(z3.Bool("opaque_bool_%d" % self.fresh))
